@@ -340,6 +340,39 @@ func ffTamperings() []ffTamper {
 			r.Block.Signatures = m
 		}},
 	}
+	ts = append(ts, ffTamper{"sigs-member-minority-topped-up-by-known-non-members", func(r *bnet.FastForwardResponse, w *World) {
+		// at most TrustCount member signatures, plus valid signatures of every other
+		// key the driver holds (former validators, later joiners, strangers): none of
+		// them belongs to the frame's validator set
+		members := map[string]bool{}
+		for _, p := range r.Frame.Peers {
+			members[canonKey(p.PubKeyHex)] = true
+		}
+		n := len(members)
+		keep := 0
+		if n > 1 {
+			keep = (n + 2) / 3
+		}
+		ks := []string{}
+		for k := range r.Block.Signatures {
+			ks = append(ks, k)
+		}
+		sort.Strings(ks)
+		m := map[string]string{}
+		for i, k := range ks {
+			if i < keep {
+				m[k] = r.Block.Signatures[k]
+			}
+		}
+		for _, p := range w.parts {
+			if !members[canonKey(p.PubHex)] {
+				if sg, err := r.Block.Sign(p.Key); err == nil {
+					m[p.PubHex] = sg.Signature
+				}
+			}
+		}
+		r.Block.Signatures = m
+	}})
 	for how := 0; how < 3; how++ {
 		h := how
 		ts = append(ts, ffTamper{fmt.Sprintf("sigs-one-signer-respelled-%d", h), func(r *bnet.FastForwardResponse, w *World) {
@@ -481,14 +514,28 @@ func (vn *VNet) tryFF(f *NNode, desc string, tam func(server *NNode, resp *bnet.
 	w := vn.w
 	var seen *bnet.FastForwardResponse
 	var best *bnet.FastForwardResponse
+	var bestFacts, seenFacts ffFacts
+	var bestFrame, bestBlock map[string]interface{}
 	vn.ffTamper = func(server *NNode, resp *bnet.FastForwardResponse) {
 		if tam != nil {
 			tam(server, resp)
 		}
-		cp := *resp
-		seen = &cp
+		// facts and projections are taken now, from the response as it is handed to
+		// the node (a private copy: the node owns and mutates the objects afterwards)
+		cpi := wireCopy(resp)
+		cp, _ := cpi.(*bnet.FastForwardResponse)
+		if cp == nil {
+			c2 := *resp
+			cp = &c2
+		}
+		fx := ffFactsOf(cp)
+		seen, seenFacts = cp, fx
 		if best == nil || cp.Block.Index() > best.Block.Index() {
-			best = &cp
+			best, bestFacts = cp, fx
+			func() {
+				defer func() { recover() }()
+				bestFrame, bestBlock = vn.frameObs(&cp.Frame), vn.blockObsFF(&cp.Block)
+			}()
 		}
 	}
 	before := f.ffDigest()
@@ -505,13 +552,13 @@ func (vn *VNet) tryFF(f *NNode, desc string, tam func(server *NNode, resp *bnet.
 	}()
 	vn.ffTamper = nil
 	if best == nil {
-		best = seen
+		best, bestFacts = seen, seenFacts
 	}
 	facts := ffFacts{}
 	trustedSigner := false
 	x := map[string]interface{}{"desc": desc, "prev_state": prevState}
 	if best != nil {
-		facts = ffFactsOf(best)
+		facts = bestFacts
 		for _, k := range facts.ValidSigners {
 			if trusted[k] {
 				trustedSigner = true
@@ -534,8 +581,11 @@ func (vn *VNet) tryFF(f *NNode, desc string, tam func(server *NNode, resp *bnet.
 		"changed": before != after, "state": f.State(), "restores": len(f.app.restores)}
 	if adopted {
 		// the specification resets the node from what was adopted
-		x["frame"] = vn.frameObs(&best.Frame)
-		x["block"] = vn.blockObsFF(&best.Block)
+		if bestFrame == nil {
+			bestFrame, bestBlock = vn.frameObs(&best.Frame), vn.blockObsFF(&best.Block)
+		}
+		x["frame"] = bestFrame
+		x["block"] = bestBlock
 		// the node's view is now the frame
 		f.view = map[string]bool{}
 		f.undet = map[string]bool{}
